@@ -47,6 +47,10 @@ T = {
  "C20": ("Static analysis: every failed AppendRegular path in Mailbox.Append reaches the recovery transaction except the size-limit edge; AppendRegular has no other caller and the APPENDUID OK is built on the nil edge from Append's own UID; the recovery mailbox name is refused (case-insensitively) before any database access in Create/Delete/Rename/AppendOnlyMailbox/Copy/Move; every removal from the recovery mailbox erases the same ids from the dedup map; a hashing failure never aborts the recovery and the dedup check precedes the insert. 'Listed exactly while non-empty' and content-hash equality are not decided.",
          "Trusts go/ssa and the VTA call graph.",
          "must-pass-through + who-may-call + dominance guards + pairing rule on SSA", "DESIGN.md 4/C20"),
+
+ "C18": ("Static analysis: every use of the authenticated state in the session package is dominated (inter-procedurally, up to 4 frames, closures included) by s.state != nil or is reached only through a nil-safe getter's channel; Session.state is written only in handleLogin from a successful Backend.GetState; State.user and the state's user binding are written once; getUserID returns an id only on the true edge of connector.Authorize, waits for the jail first, and the maxLoginAttempts branch arms WaitGroup + loginJailTime timer whose callback releases it and resets the counter; CLOSE/UNSELECT always drop the snapshot. The jail duration itself (time) is not decided.",
+         "Trusts go/ssa, static call resolution inside internal/session.",
+         "inter-procedural dominance (guarded-by) + who-may-write + must-pass-through", "DESIGN.md 4/C18"),
 }
 NA_REASON = {}
 checks = []
